@@ -179,7 +179,7 @@ def validate(o: Outcome, texts: list, known: list, chunk_size: int = 400):
                     "wikitext2": ptree2.concretise(rec["w2"]), "before": ptree2.show(ref), "after": ptree2.show(got),
                     "link_nodes": b["links"]}
             why = f"{which} of {text!r} is not equivalent" + (" (number of LINK nodes changed)" if link else "")
-            o.classify(case, why, sorted(b["devs"]), cls=("rt1 " if not b["e12"] else "rt2 ") + diff_kinds(ref, got))
+            o.classify(case, why, sorted(b["devs"]), cls=("rt1 " if not b["e12"] else "rt2 ") + label.rsplit("/", 1)[0] + (" LINK-count" if link else ""))
         for i, b in r["drift"]:
             rec = recs[i]
             o.note_drift({"text": texts[i][1], "real": ptree2.concretise(rec["w%d" % b["which"]]),
